@@ -1,26 +1,32 @@
 #!/bin/bash
 # Self-test matrix: every seeded change and every hand mutant against the check of its own property (and any extra ids given in
 # seeded/<name>/also).  Writes seeded/MATRIX.txt.  Scratch worktrees under /tmp are removed by tools/mutant.sh.
-cd /verif
+# VERIF_HOME (default /verif): the tree whose checks are run (a private copy lets the matrix run while /verif is being edited);
+# PAR (default 5): jobs in parallel.
+cd ${VERIF_HOME:-/verif}
 out=seeded/MATRIX.txt
-: > $out.tmp
+tmp=$(mktemp -d /tmp/mtv_matrix.XXXXXX)
+jobs=$tmp/jobs
+: > $jobs
 for d in seeded/*/; do
   n=$(basename $d); id=${n%%-*}
-  ids="$id $(cat $d/also 2>/dev/null)"
-  for c in $ids; do
-    r=$(tools/mutant.sh $d/patch.diff $c 2>&1 | grep -E "^VIOLATION|^rc=" | tr '\n' ' ')
-    case "$r" in *VIOLATION*rc=1*) v=caught;; *rc=0*) v=MISSED;; *) v="ERROR($r)";; esac
-    nf=""; case "$r" in *no-failing-input-found*) nf=" (no-failing-input-found)";; esac
-    echo "seeded/$n  $c  $v$nf" >> $out.tmp
-  done
+  for c in $id $(cat $d/also 2>/dev/null); do echo "seeded/$n $d/patch.diff $c" >> $jobs; done
 done
 for p in mutants/*.patch mutants/*/*.patch; do
   [ -f "$p" ] || continue
-  n=$(basename $p .patch); id=$(echo $p | grep -o 'C[0-9][0-9]' | head -1)
-  r=$(tools/mutant.sh $p $id 2>&1 | grep -E "^VIOLATION|^rc=|does not apply" | tr '\n' ' ')
+  id=$(echo $p | grep -o 'C[0-9][0-9]' | head -1)
+  echo "$p $p $id" >> $jobs
+done
+one() {
+  label=$1; patch=$2; c=$3
+  r=$(tools/mutant.sh $patch $c 2>&1 | grep -E "^VIOLATION|^rc=|does not apply" | tr '\n' ' ')
   case "$r" in *VIOLATION*rc=1*) v=caught;; *rc=0*) v=MISSED;; *) v="ERROR($r)";; esac
   nf=""; case "$r" in *no-failing-input-found*) nf=" (no-failing-input-found)";; esac
-  echo "$p  $id  $v$nf" >> $out.tmp
-done
-mv $out.tmp $out
+  echo "$label  $c  $v$nf"
+}
+export -f one
+nl -ba $jobs | while read i label patch c; do echo "$i $label $patch $c"; done | \
+  xargs -P ${PAR:-5} -L 1 bash -c 'one $1 $2 $3 > '$tmp'/r.$(printf %04d $0)'
+cat $tmp/r.* > $out
+rm -rf $tmp
 cat $out
